@@ -1,16 +1,35 @@
-(* Property C16 — Copied strings decouple results from the input buffer; Clone is independent
-   Statement-level file; see DESIGN.md §6 C16.  Model-level theorems are under
-   proof in Proofs/ (see obligations.json); this file carries the tie
-   obligations and what is proved so far; the property is decided on every run
-   by the correspondence described in DESIGN.md. *)
-From SJ Require Import Model.Base Model.RefTables Spec.Json Model.Tape Model.Iter Model.Serialize Model.FloatFmt Model.Marshal Tie.GoTablesTie Tie.SerializeTie.
+(* Property C16 — copied strings decouple results from the input buffer; Clone
+   is independent. *)
+From SJ Require Import Model.Base Model.RefTables Spec.Json Model.Tape Model.Heap Proofs.HeapProofs Proofs.HeapDenote Tie.GoTablesTie.
 Open Scope N_scope.
-(* a string word with STRINGBUFBIT is read from the string buffer only: the
-   message does not matter *)
+
+(* a tape that denotes with an EMPTY message (every string word has
+   STRINGBUFBIT: copy mode) denotes the same documents with ANY message: the
+   caller's buffer is irrelevant *)
+Theorem C16_copy_mode_ignores_message : forall strs tape ds,
+  denote [] strs tape = Some ds -> forall msg, denote msg strs tape = Some ds.
+Proof. exact denote_copy_mode. Qed.
+
 Theorem C16_copied_string_ignores_message : forall strings msg msg' payload len,
   negb (N.land payload STRINGBUFBIT =? 0) = true ->
   string_at msg strings payload len = string_at msg' strings payload len.
 Proof. intros strings msg msg' payload len H. unfold string_at. destruct (N.land payload STRINGBUFBIT =? 0); [discriminate|reflexivity]. Qed.
+
+(* Clone yields buffers disjoint from the source; any sequence of edits on one
+   object leaves every buffer of the other unchanged, in both directions and
+   interleaved *)
+Theorem C16_clone_frame : forall st st1 src c dst,
+  wf st src -> dst_ok st src dst -> clone st src dst = (c, st1) ->
+  view c st1 = view src st /\ view src st1 = view src st /\
+  (forall es, view src (apply_edits c es st1) = view src st) /\
+  (forall es, view c (apply_edits src es st1) = view src st) /\
+  (forall es, view src (apply_mixed src c es st1) = view src (apply_edits src (edits_of true es) st1) /\
+              view c (apply_mixed src c es st1) = view c (apply_edits c (edits_of false es) st1)).
+Proof. exact clone_frame. Qed.
+Definition C16_clone_disjoint := clone_disjoint.
+
 Theorem C16_tie_stringbuf : gen.Consts.gen_STRINGBUFBIT = STRINGBUFBIT /\ gen.Consts.gen_STRINGBUFMASK = STRINGBUFMASK.
 Proof. destruct tie_word_layout as (_ & _ & C & D & _). exact (conj C D). Qed.
-Print Assumptions C16_copied_string_ignores_message.
+
+Print Assumptions C16_copy_mode_ignores_message.
+Print Assumptions C16_clone_frame.
